@@ -39,6 +39,12 @@ theorem decode_count (fuel : Nat) (x : Json) (pn : Option String) (t : Agg)
     ∃ e, Json.toVal? x = some e ∧ Val.lt e 0 = false ∧ t = .node .count e .unit none [] :=
   Hg.decode_count fuel x pn t h
 
+/-- a Bag document that lists the same value twice is rejected: the loaded Bag has pairwise distinct values -/
+theorem decode_bag_nodup (fuel : Nat) (m : List (String × Json)) (pn : Option String) (t : Agg)
+    (h : decodeFrag (fuel + 1) "Bag" (.obj m) pn = some t) :
+    ∃ q r vals, t.kind = .bag q r ∧ t.st = .bag vals ∧ (vals.map (·.1)).Nodup :=
+  Hg.decode_bag_nodup fuel m pn t h
+
 /-- an unknown primitive name is rejected at every level -/
 theorem decode_unknown_type (fuel : Nat) (ty : String) (j : Json) (pn : Option String)
     (h : isKnownType ty = false) : decodeFrag fuel ty j pn = none :=
